@@ -21,6 +21,7 @@ import (
 var rec = vk.NewRecorder("C18")
 
 func TestMain(m *testing.M) {
+	vk.Disturb = gen.Disturb
 	code := m.Run()
 	rec.Flush("all")
 	os.Exit(code)
